@@ -224,6 +224,24 @@ def c08(rng, tier):
             [0xD7FF, 0xE000, 0xFFFF, 0x10000, 0x10FFFF, 0x2028, 0x2029, 0x85, 0xA0, 0x1680, 0x3000, 0xFEFF]
     else:
         cps = range(0, 0x110000)
+    # every Unicode scalar value once, 1024 entries per Manifest (exhaustive in both tiers)
+    allcps = [c for c in range(0x110000) if not 0xD800 <= c <= 0xDFFF]
+    for start in range(0, len(allcps), 1024):
+        chunk = allcps[start:start + 1024]
+        ents = [new_manifest_entry('DATA', 'x' + chr(c) + '1f', 1, {'SHA1': 'aa'}) for c in chunk]
+        r = roundtrip(ents, 'batch')
+        n += 1
+        if r:
+            # find the culprits
+            for c in chunk:
+                r1 = roundtrip([new_manifest_entry('DATA', 'x' + chr(c) + '1f', 1, {'SHA1': 'aa'})], 'single')
+                if r1:
+                    viol.append({'what': 'C08 code point U+%04X: %s' % (c, r1), 'key': 'cp:%04X' % c, 'props': ['C08']})
+                    if len(viol) > 10:
+                        break
+        if len(viol) > 10:
+            break
+    distinct += len(allcps)
     for cp in cps:
         if 0xD800 <= cp <= 0xDFFF:
             continue        # lone surrogates are not Unicode scalar values (cannot be encoded to UTF-8)
